@@ -168,7 +168,9 @@ class C16(AAdapterProp):
                   "calls), c16_chain_pending_keeps / c16_chain_pending_only_from_inner (Pending only if an inner poll returned it; the first reader "
                   "is kept), c16_take_observable and c16_tokio_take_observable (ONE observational specification — what is appended after the "
                   "untouched filled prefix, how the allowance moves, which capacity the inner stream is offered, Pending and errors passed on — "
-                  "proved of the crate's take and of tokio's Take); c16_pinned_refuted keeps the zero-capacity counterexample of the pre-fix "
+                  "proved of the crate's take and of tokio's Take); stream level: c16_chain_stream (a chain of any two streams that either answer "
+                  "Pending leaving the filled part alone or append a prefix of a fixed remaining sequence is again such a stream, of first ++ "
+                  "second: all of first, then all of second, under every Pending pattern and for every ReadBuf incl. zero capacity); c16_pinned_refuted keeps the zero-capacity counterexample of the pre-fix "
                   "chain. GenEq/SrcC16.v restates them about the regenerated poll_read functions. Stated over the modelled ReadBuf.")
     nontrivial_rule = ("scripted inner streams (chunks, spurious empty reads, errors, panics, EOF) x every subset of polls answered Pending for "
                        "short scripts x ReadBufs {empty, zero capacity, pre-filled, pre-filled + zero capacity, uninit} x limits {0, below, equal, "
